@@ -1377,7 +1377,9 @@ impl C17Prop {
                         if s.div_ceil(b) != na {
                             continue;
                         }
-                        for fa in faults(na) {
+                        // A's announcement / end marker repeated as well (outside the statement's fault list: A itself is only
+                        // observed then, but B must be unaffected by it)
+                        for fa in faults(na).into_iter().chain(if na <= 2 || ctx.tier == Tier::Thorough { observed_faults(na) } else { vec![] }) {
                             for (s2, b2, f2s) in &bvars {
                                 for fb in f2s {
                                     for (ecu2, lc2, ser2) in keydiff.iter().take(nkd) {
